@@ -32,9 +32,9 @@ func (c11) Meta() Meta {
 
 func c11Params(tier string) (nGenQ, nGenT, broken int) {
 	if tier == "thorough" {
-		return 60, 600, 6
+		return 400, 5000, 6
 	}
-	return 60, 600, 2
+	return 400, 5000, 2
 }
 
 func (p c11) NumUnits(tier string, seed int64) int {
